@@ -36,7 +36,11 @@ Inductive case :=
             (decided same_block accepted after_ok : bool)
 (* full blocks: every pool holds [total] valid transactions, the binding limit allows [cap] per block; transactions carried
    by the successive blocks, and hashes in the successive proposals of the real primaries *)
-| CFull (total cap : N) (blocks : list N) (proposed : list N).
+| CFull (total cap : N) (blocks : list N) (proposed : list N)
+(* one block, several valid witnesses, on fresh ledgers: mode 0 = header from A then block from B, 2 = two headers from A
+   then two blocks from B (must be accepted); 1 = block from A then block from B (already known: refused, nothing changes);
+   3 = header from A then B's block with M-1 signatures, 4 = with a signature over another block (must be refused) *)
+| CCross (items : list (N * bool)).
 
 Definition sendrec := (N * N * N * N * N * N)%type.   (* index, sender, height, type, view, b *)
 
@@ -164,6 +168,12 @@ Definition check_case (c : case) : N :=
       let spec := own_ok && other_ok && Nat.eqb (length signers) m && increasing signers (-1)
                   && seq_match (verify_hd cur) (seq 0 (length views)) w in
       if mech && spec then 0 else if spec then 1 else 2
+  | CCross items =>
+      (* Consensus/WitnessProofs.v any_current_view_quorum_witness_valid: every M-subset of the current-view commits in
+         validator order passes the check, so acceptance does not depend on whose copy arrives; fewer or foreign do not *)
+      if forallb (fun it => let '(m, ok) := it in
+                    if (m =? 0) || (m =? 2) then ok else if m =? 1 then ok else negb ok) items
+      then 0 else 2
   | CFull total cap blocks proposed =>
       (* Consensus/Packing.v: the primary proposes min(cap, what is left); the backups accept it, so it is the block *)
       let fix chunks (fuel : nat) (left : N) : list N :=
